@@ -205,6 +205,35 @@ def run_ctor(shard, rec, B):
             Nd = k + int(rng.integers(0, 3))
             dg_, dp_, _ = O.random_tableau(rng, Nd, r=Nd - k, nrot=2 * Nd)
             check_dm(rec, B, "density_matrix", dg_, dp_, Nd - k, rng, {"N": Nd, "r": Nd - k})
+        # exports re-asked of ONE live state after public in-place changes (set_r, sign writes, rotations)
+        if t % 5 == 0:
+            Nl = int(rng.integers(1, 5))
+            lg_, lp_, lr_ = O.random_tableau(rng, Nl)
+            Sl = B.State(lg_.copy(), lp_.copy(), lr_)
+            cur = (lg_.copy(), lp_.copy(), lr_)
+            for step in range(4):
+                ok, ex = rec.attempt("live.export", [Nl, step], lambda: (Sl.density_matrix, Sl.to_qutip().full(), Sl.to_map()))
+                if not ok:
+                    break
+                dmm = O.dense_poly(B.np(ex[0].gs).reshape(-1, 2 * Nl), B.ph(ex[0].ps), B.cnp(ex[0].cs))
+                want = O.rho(cur[0], cur[1], cur[2])
+                mg_, mp_ = B.gsps(ex[2])
+                rec.check("live.export", O.close(dmm, want, B.tol) and O.close(np.asarray(ex[1]), want, B.tol)
+                          and np.array_equal(mg_[1::2], cur[0][:Nl]) and np.array_equal(mp_[1::2], cur[1][:Nl] % 4),
+                          {"N": Nl, "step": step, "rows": _show(cur[0], cur[1]), "r": cur[2]}, True)
+                how = int(rng.integers(3))
+                if how == 0:
+                    nr = int(rng.integers(0, Nl + 1))
+                    Sl.set_r(nr)
+                    cur = (cur[0], cur[1], nr)
+                elif how == 1:
+                    Gl, PGl = gen.rand_nonid(rng, Nl), 2 * int(rng.integers(2))
+                    Sl.rotate_by(B.Pauli(Gl, PGl))
+                    ng, npp = O.rot_image(Gl, PGl, cur[0], cur[1])
+                    cur = (ng, npp, cur[2])
+                else:
+                    Sl.ps[:] = (Sl.ps + 2) % 4
+                    cur = (cur[0], (cur[1] + 2) % 4, cur[2])
         # to_qutip of arbitrary signed mixed states
         if N <= 4:
             tg, tp, r = O.random_tableau(rng, N)
